@@ -5,12 +5,12 @@ cd /verif
 declare -A PROPS=( [H1_checksum]="C10" [H2_without]="C19 C20 C11 C02" [H3_poolready]="C15" [H4_parseadd]="C02 C11 C05"
  [H5_setactive]="C01 C03 C12 C14" [H6_whenqueue]="C04 C06 C12" [H7_tick]="C01 C12" [H8_timesum]="C17 C20 C10"
  [H9_statesdiff]="C02 C20 C01" [H10_findlatest]="C17" [H11_queuemut]="C04 C03" [H12_enter]="C03 C05 C07"
- [H13_deep]="C10" [H14_txat]="C16" [H15_recover]="C08 C01" )
+ [H13_deep]="C10" [H14_txat]="C16" [H15_recover]="C08 C01" [H16_target]="C02 C11 C05" [H17_auto]="C07 C11" [H18_import]="C17 C20 C12 C01" )
 names="$*"; [ -z "$names" ] && names=$(ls harmless | sed 's/.diff$//')
 rc=0
 for n in $names; do
   [ -z "$(git -C /repo status --porcelain)" ] || { echo "REFUSING: /repo has uncommitted changes"; exit 2; }
-  git -C /repo apply harmless/$n.diff || { echo "$n APPLY FAILED"; continue; }
+  git -C /repo apply /verif/harmless/$n.diff || { echo "$n APPLY FAILED"; continue; }
   for p in ${PROPS[$n]}; do
     out=$(GOCV_OUT=/tmp/w/harmcheck-out ./check $p quick 2>&1 | grep -E "^(VIOLATION|UNDECIDED)" | cut -c1-200)
     if echo "$out" | grep -q "^VIOLATION"; then echo "$n $p FALSE ALARM: $out"; rc=1; else echo "$n $p quiet $(echo "$out" | grep -c UNDECIDED) undecided"; fi
